@@ -1,22 +1,22 @@
 PROP = dict(
     coq=["Ext/ExtHarness.vo", "Ext/Pack.vo"],
     legs=[
-        dict(binary="zext", driver="fileext", quick=3000, thorough=60000, shard=400,
+        dict(binary="zext", driver="fileext", quick=3000, thorough=40000, shard=400,
              monitors=["file_ext_spec (computed from the end of the string)", "file_ext_is_last_segment (class known by construction)"]),
-        dict(binary="zext", driver="json", quick=600, thorough=20000, shard=60,
+        dict(binary="zext", driver="json", quick=600, thorough=12000, shard=60,
              monitors=["json_all_found: planted URLs returned in the right class", "json_only_found: returned strings occur as values",
                        "error iff rendering damaged", "planted URLs that fasturl rejects are found", "host-only URL is an outlink",
                        "URLs in white-space padded embedded JSON are found"]),
-        dict(binary="zext", driver="xml", quick=600, thorough=20000, shard=60,
+        dict(binary="zext", driver="xml", quick=600, thorough=12000, shard=60,
              monitors=["xml_all_found: planted URLs returned in the right class", "xml_only_found: returned strings come from attribute / text nodes",
                        "error iff rendering damaged", "host-only URL is an outlink", "sitemap_detected"]),
-        dict(binary="zext", driver="m3u8", quick=500, thorough=12000, shard=50,
+        dict(binary="zext", driver="m3u8", quick=500, thorough=8000, shard=50,
              monitors=["m3u8_all_found: segment / variant / referenced-rendition URIs returned", "m3u8_only_found",
                        "error iff playlist damaged", "renditions of unreferenced groups are found"]),
-        dict(binary="zext", driver="docpost", quick=400, thorough=10000, shard=50,
+        dict(binary="zext", driver="docpost", quick=400, thorough=6000, shard=50,
              monitors=["post_hops: children at the item's hop count, outlinks one further", "post_hop_guard: no outlink at or beyond --max-hops",
                        "post_split: planted URLs become children / outlinks", "the archiver keeps the document's body"]),
-        dict(binary="zext", driver="s3", quick=400, thorough=12000, shard=40,
+        dict(binary="zext", driver="s3", quick=400, thorough=8000, shard=40,
              monitors=["s3_walk_complete: every non-empty object under the root prefix queued", "s3_walk_complete (converse): nothing else queued",
                        "s3_walk_terminates within walk_bound fetch decisions"]),
     ],
